@@ -10,7 +10,8 @@ From Coq Require Import NArith List.
 From BU Require Import Base.Exn Base.Bytes Gen.Consts Gen.Bech32Consts
   Model.Base58 Model.Bech32Bits Model.Bech32Str Model.Bech32 Model.Wif.
 From BU Require Lemmas.Base58 Lemmas.ConstsOk Lemmas.Bech32Bits Lemmas.Bech32Str Lemmas.Bech32Code
-  Lemmas.Bech32 Lemmas.Wif.
+  Lemmas.Bech32 Lemmas.Wif Lemmas.Bech32Detect Lemmas.Bech32CertB32 Lemmas.Bech32Cert Lemmas.Bech32CertCash
+  Lemmas.Bech32CashDetect.
 Import ListNotations.
 Open Scope N_scope.
 
@@ -217,6 +218,86 @@ Theorem cashaddr_checksum_unique : forall hrp data cs, small32 data -> length cs
   cash_verify_checksum hrp (data ++ cs) = true -> cs = cash_compute_checksum hrp data.
 Proof. exact Lemmas.Bech32Code.cash_checksum_unique. Qed.
 Print Assumptions cashaddr_checksum_unique.
+
+(* ================================================================== error detection (BCH distance) *)
+(* [hamming a b]: number of positions where two lists differ.
+   [data_corrupted sep n s1 s2]: after lower-casing (as the decoders do) s1 = h ++ sep :: t1 and
+   s2 = h ++ sep :: t2 with sep not in t1 (so h is s1's HRP), |t1| = |t2| <= n and 1 <= hamming t1 t2 <= 4:
+   s2 is s1 with one to four data-part characters replaced by anything.
+   The proofs rest on a distance certificate evaluated by the kernel (vm) on the generator words regenerated
+   from the PolyMod bodies: Lemmas/Bech32CertB32.v (window 89) and Lemmas/Bech32CertCash.v (window 160). *)
+Notation hamming := Lemmas.Bech32Detect.hamming.
+Notation data_corrupted := Lemmas.Bech32Cert.data_corrupted.
+Notation b32_window := Lemmas.Bech32CertB32.b32_window.       (* 89 *)
+Notation cash_window := Lemmas.Bech32CertCash.cash_window.    (* 160 *)
+
+(* checksum level, Bech32 and Bech32m alike (any constant): within 89 symbols, 1..4 wrong symbols never verify *)
+Theorem bech32_checksum_detects_4 : forall K hrp d1 d2, length d1 = length d2 -> (length d1 <= b32_window)%nat ->
+  small32 d1 -> small32 d2 -> (1 <= hamming d1 d2 <= 4)%nat ->
+  b32_verify_checksum K hrp d1 = true -> b32_verify_checksum K hrp d2 = false.
+Proof. exact Lemmas.Bech32Cert.b32_verify_detects. Qed.
+Print Assumptions bech32_checksum_detects_4.
+
+(* decoder level: for every HRP and every accepted string with a data part of at most 89 characters, every
+   corruption of 1..4 data-part characters is rejected *)
+Theorem bech32_detects_4 : forall hrp s1 s2 p1, bech32_decode hrp s1 = Ok p1 ->
+  data_corrupted bech32_sep b32_window s1 s2 ->
+  exists e, bech32_decode hrp s2 = Err e /\ (e = ValueError \/ e = LibError Bech32ChecksumError).
+Proof. exact Lemmas.Bech32Cert.bech32_detects_4_err. Qed.
+Print Assumptions bech32_detects_4.
+
+Example bech32_detects_4_example : exists p1,
+  bech32_decode [98; 99] [98; 99; 49; 112; 99; 113; 113; 102; 101; 122; 120; 107; 101] = Ok p1 /\
+  data_corrupted bech32_sep b32_window [98; 99; 49; 112; 99; 113; 113; 102; 101; 122; 120; 107; 101]
+                                        [98; 99; 49; 112; 99; 113; 113; 102; 101; 122; 120; 107; 113].
+Proof. exact Lemmas.Bech32Cert.detects_example. Qed.
+Print Assumptions bech32_detects_4_example.
+
+(* the window is tight: two valid 90-symbol data parts can differ in only four symbols (the library does
+   not enforce BIP-173's 90-character limit, so the length bound has to be in the theorem) *)
+Theorem bech32_window_tight : exists e, length e = 90%nat /\ Lemmas.Bech32Detect.weight e = 4%nat /\ small32 e /\
+  pm_from Lemmas.Bech32ConstsOk.b32_gens bech32_pm_shift (N.ones bech32_pm_shift) bech32_pm_symbits 0 e = 0.
+Proof. exists Lemmas.Bech32Cert.light90. exact Lemmas.Bech32Cert.b32_window_tight. Qed.
+Print Assumptions bech32_window_tight.
+
+(* SegWit.  Full-strength statement
+     forall hrp s1 s2 v1 p1 n, segwit_decode hrp s1 = Ok (v1, p1) -> data_corrupted segwit_sep n s1 s2 ->
+       exists e, segwit_decode hrp s2 = Err e
+   is FALSE, of the format itself (BIP-350), not only of this code: Bech32 and Bech32m are two cosets of one
+   BCH code, and four substitutions that include the version symbol can move a valid version-0 address to a
+   valid Bech32m address.  Witness: bc1qqqqsyqcyq5rqwzqfpg9scrgwpugpzysn4v0345 (P2WPKH) and
+   bc1pqqqseqcyq3rqwzqfpg9scrgwpugpzy2n4v0345 (version 1, another program). *)
+Theorem segwit_detects_4_refuted : exists hrp s1 s2 p1 p2,
+  segwit_decode hrp s1 = Ok (0, p1) /\ segwit_decode hrp s2 = Ok (1, p2) /\ p1 <> p2 /\
+  data_corrupted segwit_sep b32_window s1 s2.
+Proof.
+  destruct Lemmas.Bech32Cert.segwit_cross_witness as (p1 & p2 & H).
+  exists [98; 99], Lemmas.Bech32Cert.cross_s1, Lemmas.Bech32Cert.cross_s2, p1, p2. exact H.
+Qed.
+Print Assumptions segwit_detects_4_refuted.
+
+(* what holds, without any length hypothesis (the witness-program rule bounds the data part by 72 symbols):
+   a corruption of 1..4 data-part characters is rejected unless it switches the version symbol between zero
+   and non-zero, i.e. between the Bech32 and Bech32m constants *)
+Theorem segwit_detects_4_partial : forall hrp s1 s2 v1 p1 n, segwit_decode hrp s1 = Ok (v1, p1) ->
+  data_corrupted segwit_sep n s1 s2 ->
+  (exists e, segwit_decode hrp s2 = Err e /\ (e = ValueError \/ e = LibError Bech32ChecksumError)) \/
+  (exists v2 p2, segwit_decode hrp s2 = Ok (v2, p2) /\ (v1 =? 0) <> (v2 =? 0)).
+Proof. exact Lemmas.Bech32Cert.segwit_detects_4_err. Qed.
+Print Assumptions segwit_detects_4_partial.
+
+(* CashAddr: data parts of at most 160 characters *)
+Theorem cashaddr_checksum_detects_4 : forall hrp d1 d2, length d1 = length d2 -> (length d1 <= cash_window)%nat ->
+  small32 d1 -> small32 d2 -> (1 <= hamming d1 d2 <= 4)%nat ->
+  cash_verify_checksum hrp d1 = true -> cash_verify_checksum hrp d2 = false.
+Proof. exact Lemmas.Bech32CashDetect.cash_verify_detects. Qed.
+Print Assumptions cashaddr_checksum_detects_4.
+
+Theorem cashaddr_detects_4 : forall hrp s1 s2 p1, cash_decode hrp s1 = Ok p1 ->
+  data_corrupted cash_sep cash_window s1 s2 ->
+  exists e, cash_decode hrp s2 = Err e /\ (e = ValueError \/ e = LibError Bech32ChecksumError).
+Proof. exact Lemmas.Bech32CashDetect.cash_detects_4_err. Qed.
+Print Assumptions cashaddr_detects_4.
 
 (* ================================================================== Base58Check *)
 Definition b58_alphabets : list (list N) := [b58_alph_btc; b58_alph_xrp].
